@@ -680,6 +680,14 @@ class AffineDomain(Domain):
         if name in ("numpy.sqrt", "math.sqrt"):
             a = self.lift(args[0]) if args else None
             return A(Poly.atom(("sqrt", a.key(), repr(a), a))) if a is not None else TOP
+        if name in ("numpy.linalg.norm", "numpy.hypot", "math.hypot") and args:
+            # Euclidean length: sqrt(sum(x**2)), same normal form as the spelled-out expression
+            a = self.lift(args[0])
+            if a is None:
+                return TOP
+            sq = A(a.num * a.num, a.den * a.den)
+            sm = A(Poly.atom(("fn", "sum", (sq.key(),), (repr(sq),))))
+            return A(Poly.atom(("sqrt", sm.key(), repr(sm), sm)))
         if name == "builtins.slice":
             vals = [None if (isinstance(x, Const) and x.value is None) else x for x in args]
             if len(vals) == 1:
